@@ -157,7 +157,8 @@ class P(Prop):
                 "observations are assembled and whether positions are overwritten; `verbose` only prints (randomised by the harness, not a parameter of the model)")
     trusted = ["numpy.argmin returns the first minimum of a list of finite numbers (modelled as a strict-< scan; exercised by the correspondence)",
                "math.log / Lean Float.log (C library) in the likelihood streams; the theorems about likelihoods are over the reals",
-               "copy.deepcopy of a track yields an independent track with equal features (the model's tracks are values)"]
+               "copy.deepcopy of a track yields an independent track with equal features (the model's tracks are values)",
+               "len() and integer indexing (with a Python int or a numpy.int64) of the containers S returns - tuple, numpy.ndarray, collections.deque, range - are Python's / numpy's: the model sees the items in index order"]
     rule = ("single calls: user-supplied S/Q/P read from tables, states labelled 10*epoch+index and callbacks that raise when called with a state or "
             "observation of the wrong epoch; enumerated blocks of all tables of a shape over {0,-1,-2} (logs) and {0,0.5,1} (likelihoods); "
             "random shapes to T=8, S=5 with integer, dyadic and float values; the flag given to the constructor, to setLog or to estimate(); "
@@ -502,7 +503,7 @@ class P(Prop):
             Pt, Qt = self.rand_tables(rng, n, fl)
             out.append({"kind": "rand", "flavour": fl, "log": log, "exact": exact, "n": n, "P": Pt, "Q": Qt})
         # histories of calls (props/c09sess.py)
-        for _ in range(60000 if thorough else 4000):
+        for _ in range(50000 if thorough else 6000):
             out.append(SS.gen_session(rng))
         for _ in range(400 if thorough else 30):
             out.append(SS.gen_session(rng, big=True))
